@@ -100,7 +100,10 @@ func (rd *reader) remainingRule(rule string) {
 				ok, why = false, "transport read without consulting Conn.readRemaining"
 				continue
 			}
-			if !hasLit(p, ev.NLits, true, func(t *core.Term) bool { z, isC := t.Args0Int(); return t.Kind == core.KLt && isC && z == 0 && t.Args[1] == rem }) {
+			if !hasLit(p, ev.NLits, true, func(t *core.Term) bool {
+				z, isC := t.Args0Int()
+				return t.Kind == core.KLt && isC && z == 0 && t.Args[1] == rem
+			}) {
 				ok, why = false, "payload read at "+c.P.Pos(ev.Instr.Pos())+" without [readRemaining > 0]"
 			}
 			bounded := (buf.Kind == core.KSlice && buf.Args[1].Kind == core.KNone && buf.Args[2] == rem) ||
